@@ -2170,3 +2170,49 @@ func c20rememberedDefaults(c *core.Check) {
 	}
 	c.Min("remembered-default-agrees", 1)
 }
+
+// ---------------------------------------------------------------------------------------------------------------------
+// C14: "serialising a mask to JSON and back yields a mask that answers every query identically". Rule: the marshalling
+// code never builds a JSON value with strconv.Quote / %q (Go escapes such as \x01 or \a are not JSON); strings go through
+// encoding/json.
+func c14jsonStrings(c *core.Check) {
+	pk := c.Prog.Pkg(fmRel)
+	info := pk.TypesInfo
+	n := 0
+	var bad []string
+	for _, f := range pk.Syntax {
+		if !strings.HasSuffix(c.Prog.Fset.File(f.Pos()).Name(), "/serdes.go") {
+			continue
+		}
+		for _, d := range f.Decls {
+			fd, ok := d.(*ast.FuncDecl)
+			if !ok || fd.Body == nil {
+				continue
+			}
+			for _, call := range rules.Calls(fd.Body, true) {
+				fn := rules.Callee(info, call)
+				if fn == nil || fn.Pkg() == nil {
+					continue
+				}
+				switch fn.Pkg().Path() + "." + fn.Name() {
+				case "encoding/json.Marshal":
+					n++
+				case "strconv.Quote", "strconv.QuoteToASCII", "strconv.AppendQuote":
+					n++
+					bad = append(bad, fd.Name.Name+": "+rules.ExprString(call)+" at "+c.Prog.Rel(call.Pos()))
+				case "fmt.Sprintf", "fmt.Fprintf":
+					for _, a := range call.Args {
+						if s, ok := rules.ConstString(info, a); ok && strings.Contains(s, "%q") {
+							n++
+							bad = append(bad, fd.Name.Name+": %q at "+c.Prog.Rel(call.Pos()))
+						}
+					}
+				}
+			}
+		}
+	}
+	c.Analysed["json_string_encoders"] = n
+	c.Decide(len(bad) == 0 && n > 0, "json-strings-by-json", fmRel+"/serdes.go/string-encoding", fmRel+"/serdes.go",
+		"strings reach the JSON text through encoding/json only",
+		fmt.Sprintf("JSON text is built with Go quoting (%v): a key containing a control character or other byte that Go escapes as \\\\x.., \\\\a, \\\\v is written as invalid JSON, so the marshalled mask cannot be read back", bad))
+}
